@@ -297,9 +297,11 @@ def point_list(draw, hi, max_n=5):
     n = draw(st.integers(0, max_n))
     if n == 0:
         return []
-    ks = sorted(draw(st.lists(st.integers(1, 999), min_size=n, max_size=n, unique=True)))
+    ks = sorted(draw(st.lists(st.integers(0, 1000), min_size=n, max_size=n, unique=True)))
+    if draw(st.integers(0, 3)) == 0:
+        ks[-1] = 1000  # a point on the very end of the span (and, through k = 0, on its start) is legal in Praat
     vals = draw(st.lists(values(), min_size=n, max_size=n))
-    return [[hi * k / 1000, v] for k, v in zip(ks, vals)]
+    return [[0.0 if k == 0 else hi if k == 1000 else hi * k / 1000, v] for k, v in zip(ks, vals)]
 
 
 @st.composite
